@@ -3,6 +3,7 @@ results of library calls do not depend on the calls made before."""
 from ..gen import cells as G
 from ..gen import scripts as S
 from .. import heapobs as O
+from ..translate import heapsrc
 
 SPEC = dict(
     manifest=dict(
@@ -19,13 +20,26 @@ SPEC = dict(
              'the model covers the aliasing that library calls create. The tie between model and code is alias-graph correspondence '
              '(bijection between model container ids and Python object identities, contents, offsets, hashes) after every step of '
              'sampled random interleavings - sampled, not all inputs - plus a library-only frame / idempotence / alias-exploit / '
-             'fresh-interpreter oracle and deterministic probes for the composite calls (HashMap, VmStack, TL-B, to_boc option sets).',
-        level_note='Trusted: Lean kernel (propext, Classical.choice, Quot.sound); Model/Heap.lean as a faithful hand transcription of which '
+             'fresh-interpreter oracle and deterministic probes for the composite calls (HashMap, VmStack, TL-B, to_boc option sets). '
+             'SOURCE TIE for the copy / isolation glue: Cell.begin_parse / to_slice / copy / to_builder, Slice.copy / to_cell / to_builder / '
+             'from_cell, Builder.end_cell / to_cell / to_slice are REGENERATED from the Python source on every run as heap transformers '
+             '(Generated/HeapSrc.lean: which container of the new object is a copy, which the receiver\'s own) and Lean proves each equal to the '
+             'model transition `derive` on every well-formed heap (c08_src_step), so separation and immutability hold of the regenerated steps '
+             '(c08_src_separation, c08_src_immutable); all other transitions (loads, stores, Cell(...) keeping the caller\'s containers, '
+             'composite parsers) remain hand model + sampled correspondence.',
+        level_note='For the eleven copy / derive methods: the translator harness/translate/pyheap.py with the declared interface of heapsrc.py '
+                   '(attribute -> record field, x.copy() / x[k:] = a new container, Slice(..) / Cell(..) keep the pointers given, Builder() = two new '
+                   'empty containers, store_cell / store_slice = the model\'s storeFrom), validated on every change against Python object identities '
+                   '(49 calls over a 13-object pool). For everything else: '
+                   'Trusted: Lean kernel (propext, Classical.choice, Quot.sound); Model/Heap.lean as a faithful hand transcription of which '
                    'containers each call in cell.py / slice.py / builder.py / deserialize.py copies, shares or mutates (checked by sampled '
                    'correspondence only); composite parsers are represented by their observable effect (bits dropped, refs loaded, '
                    'fresh result objects); CPython id() as object identity; the Python harness.',
-        technique='Lean 4 invariant proof over a heap model (hand model) + differential alias-graph correspondence with the library',
+        technique='Lean 4 invariant proof over a heap model (hand model; the copy / derive glue regenerated from source by an alias-graph '
+                  'translator and proved equal to the model step) + differential alias-graph correspondence with the library',
     ),
+    translators=[('cell.py / slice.py / builder.py copy + derive glue->Generated/HeapSrc.lean', heapsrc.regenerate)],
+    lean_targets=['TonVerif.Proofs.SrcHeap'],
     design_ref='DESIGN.md §6 C08',
     rule='seeded random histories (<= 40 steps) over a pool that starts with a small cell DAG (fresh, plain-bitarray, TvmBitarray, '
          'shared-container and exotic cells, dictionaries, a VmStack, a StateInit): derive / load / store / observe / boc round trip / '
@@ -1563,8 +1577,67 @@ def fresh_check(ctx, records, rng):
                      'than at the end of its history', inp, got, out)
 
 
+SRC_CELLS = ['cf:101:-:-1', 'cf:0110:0:-1', 'cf:-:0.1.0.1:-1', 'cf:' + '10' * 511 + '1:-:-1', 'cf:' + heapsrc.LIB_BITS + ':-:2']
+
+
+def src_search(ctx):
+    """the proof that a regenerated copy / derive method equals the model step broke: Lean evaluates regenerated method vs model on the
+    pool heap; for every differing (receiver kind, method) a short history is run through the full oracle (frame check + alias exploit:
+    if the new object shares a container with its source, a library mutation through one of them shows up in the other)"""
+    seen = set()
+    for recv, cls, m in heapsrc.diff_cases(ctx):
+        tag = heapsrc.POOL_TAGS[recv]
+        if (tag, m) in seen:
+            continue
+        seen.add((tag, m))
+        hists = []
+        if tag == 'c':
+            hists = [[f'dv:{i}:{m}'] for i in (1, 2, 0, 4)]
+        elif tag == 's':
+            hists = [['dv:1:begin_parse', 'sk:5:1', 'lr:5', f'dv:5:{m}'], ['dv:2:begin_parse', f'dv:5:{m}'], ['dv:4:begin_parse', f'dv:5:{m}']]
+        else:
+            hists = [['bn:B', 'sbs:5:10101', 'sr:5:0', f'dv:5:{m}'], ['bn:B', f'dv:5:{m}']]
+        for steps in hists:
+            # after the derived object exists: write through every slice / builder in reach, then look at all cells again
+            more = []
+            if DV_HOW.get(m) == 's' or (DV_HOW.get(m) is None and tag == 's'):
+                more = [f'sk:{6 if tag != "c" else 5}:1']
+            elif DV_HOW.get(m) == 'b':
+                more = [f'sbs:{6 if tag != "c" else 5}:1', f'sr:{6 if tag != "c" else 5}:0']
+            if tag == 'b':
+                more += ['sbs:5:11', 'sr:5:1']
+            if tag == 's' and DV_HOW.get(m) != 's':
+                more += ['sk:5:1']
+            try:
+                # (1) the derived object alone: it must be a snapshot of the receiver's VALUE (remaining bits, remaining references)
+                h = rerun(ctx, {'init': SRC_CELLS, 'steps': steps})
+                src = int(steps[-1].split(':')[1])
+                if not ctx.failures and len(h.pool.objs) == src + 2:
+                    a, b = h.pool.objs[src], h.pool.objs[src + 1]
+
+                    def value(o):
+                        bits = o._bits if O.tag_of(o) == 'b' else o.bits
+                        refs = o._refs if O.tag_of(o) == 'b' else o.refs
+                        return bits.to01(), [id(c) for c in refs[getattr(o, 'ref_offset', 0):]]
+                    if value(a) != value(b):
+                        ctx.fail(f'snapshot-value:{tag}.{m}', f'the object returned by {m}() does not hold the remaining bits / references of its source',
+                                 {'init': SRC_CELLS, 'steps': steps, 'check': 'snapshot-value'}, str(value(b))[:200], str(value(a))[:200])
+                        return
+                # (2) then writes through every slice / builder in reach, and all cells observed again
+                rerun(ctx, {'init': SRC_CELLS, 'steps': steps + more + ['ob:1:hash', 'ob:2:hash']})
+            except (ValueError, IndexError, KeyError) as e:
+                ctx.notes.append(f'src_search: history {steps} not runnable: {type(e).__name__}: {e}')
+            ctx.case(('src-search', tuple(steps)))
+            if ctx.failures:
+                return
+
+
 def run(ctx):
     rng = ctx.rng
+    if ctx.search:
+        src_search(ctx)
+        if ctx.failures:
+            return
     for name in PROBES:
         run_probe(ctx, name)
     batch = []
@@ -1590,6 +1663,19 @@ def replay(ctx, payload):
         for k in PROBES:
             if name == k or name.startswith(k):
                 run_probe(ctx, k)
+        return
+    if inp.get('check') == 'snapshot-value':
+        h = rerun(ctx, inp)
+        src = int(inp['steps'][-1].split(':')[1])
+        if len(h.pool.objs) == src + 2:
+            a, b = h.pool.objs[src], h.pool.objs[src + 1]
+
+            def value(o):
+                bits = o._bits if O.tag_of(o) == 'b' else o.bits
+                refs = o._refs if O.tag_of(o) == 'b' else o.refs
+                return bits.to01(), [id(c) for c in refs[getattr(o, 'ref_offset', 0):]]
+            if value(a) != value(b):
+                ctx.fail('snapshot-value:' + inp['steps'][-1], 'the derived object does not hold the remaining bits / references of its source', inp)
         return
     if 'steps' in inp or 'init' in inp:
         h = rerun(ctx, inp)
